@@ -116,6 +116,24 @@ class Gen:
     def scope(self, sc):
         return {"ints": dict(sc["ints"]), "arrs": dict(sc["arrs"]), "structs": dict(sc["structs"]), "ptrs": dict(sc["ptrs"]), "ro": set(sc["ro"])}
 
+    def special_switch(self, sc):
+        r = self.r
+        if True:
+            # a switch with many case labels in random order, probed with every label and its neighbours
+            nk = r.randrange(6, 16)
+            keys = r.sample(range(-40, 120), nk) if r.random() < 0.7 else r.sample([0, 1, -1, 127, 128, 255, 256, 32767, 32768, 65535, 65536, 2147483647, -2147483647, 1000, 77, 45, 40, 30, 20, 50, 70], nk)
+            probes = sorted(set(keys + [x + 1 for x in keys[:6]] + [x - 1 for x in keys[:6]]))
+            probes = [p for p in probes if -2147483648 <= p <= 2147483647]
+            arr, i = self.fresh("pk"), self.fresh("i")
+            self.globals.append(s_decl(arr, A(T("int"), len(probes)), i_list([i_e(lit("int", p)) for p in probes])))
+            body = []
+            for j, kv in enumerate(keys):
+                body += [s_case(kv), s_obs(lit("int", j + 1)), s_break()]
+            if r.random() < 0.6:
+                body += [s_default(), s_obs(lit("int", 0))]
+            return [s_for(s_decl(i, T("int"), i_e(lit("int", 0))), bin_("<", var(i), lit("int", len(probes))), s_expr(incdec(var(i))),
+                          s_switch(idx(var(arr), var(i)), body))]
+
     def special(self, sc):
         """VLAs, whole-struct copies, struct-by-value calls"""
         r = self.r
@@ -135,20 +153,7 @@ class Gen:
             sc["ro"].add(n)
             return out
         if k < 0.1:
-            # a switch with many case labels in random order, probed with every label and its neighbours
-            nk = r.randrange(6, 16)
-            keys = r.sample(range(-40, 120), nk) if r.random() < 0.7 else r.sample([0, 1, -1, 127, 128, 255, 256, 32767, 32768, 65535, 65536, 2147483647, -2147483647, 1000, 77, 45, 40, 30, 20, 50, 70], nk)
-            probes = sorted(set(keys + [x + 1 for x in keys[:6]] + [x - 1 for x in keys[:6]]))
-            probes = [p for p in probes if -2147483648 <= p <= 2147483647]
-            arr, i = self.fresh("pk"), self.fresh("i")
-            self.globals.append(s_decl(arr, A(T("int"), len(probes)), i_list([i_e(lit("int", p)) for p in probes])))
-            body = []
-            for j, kv in enumerate(keys):
-                body += [s_case(kv), s_obs(lit("int", j + 1)), s_break()]
-            if r.random() < 0.6:
-                body += [s_default(), s_obs(lit("int", 0))]
-            return [s_for(s_decl(i, T("int"), i_e(lit("int", 0))), bin_("<", var(i), lit("int", len(probes))), s_expr(incdec(var(i))),
-                          s_switch(idx(var(arr), var(i)), body))]
+            return self.special_switch(sc)
         if k < 0.2:
             n, a, i, t, ln = self.fresh("n"), self.fresh("al"), self.fresh("i"), r.choice(ALL), r.randrange(1, 7)
             out = [s_decl(n, T("uint"), i_e(lit("uint", ln))), s_alloca(a, T(t), var(n)),
@@ -492,16 +497,33 @@ def init_program(rng, charsigned):
     return program(structs, [], [func("main", T("int"), [], s_block(body))], charsigned)
 
 
+def switch_program(rng, charsigned):
+    """several switches with many labels in random order, each probed with every label and its neighbours"""
+    g = Gen(rng)
+    body = []
+    sc = g.empty_scope()
+    for _ in range(rng.randrange(2, 5)):
+        forced = None
+        while forced is None:
+            forced = g.special_switch(sc)
+        body += forced
+    body.append(s_ret(lit("int", 0)))
+    return program([], g.globals, [func("main", T("int"), [], s_block(body))], charsigned)
+
+
 def random_programs(ctx, objdir, runtime):
     import props.c01 as c01
     n = 48 if ctx.quick else 600
     n_init = 24 if ctx.quick else 300
+    n_sw = 6 if ctx.quick else 60
     n_refine = 12 if ctx.quick else 80
     progs = []
-    for i in range(n + n_init):
+    for i in range(n + n_init + n_sw):
         t = ["x86_64-sysv", "aarch64", "riscv64"][i % 3] if not ctx.quick else ["x86_64-sysv", "aarch64"][i % 2]
         rng = random.Random(ctx.seed * 100003 + i)
-        if i >= n:
+        if i >= n + n_init:
+            progs.append((switch_program(rng, c01.charsigned_of(t)), t))
+        elif i >= n:
             progs.append((init_program(rng, c01.charsigned_of(t)), t))
         else:
             progs.append((Gen(rng).program(c01.charsigned_of(t)), t))
